@@ -253,6 +253,7 @@ func checkC02(r *core.Run) {
 	c02StatusTable(r, a)
 	c02Wrapper(r, a)
 	c02Wrapped(r, a)
+	c02ReportFailed(r)
 	c02Retry(r, a)
 	r.Floor("C02.order", 2)
 	r.Floor("C02.fail", 8)
@@ -587,5 +588,87 @@ func c02Wrapped(r *core.Run, a *atWorld) {
 	}
 	if n < 2 {
 		r.Bad("C02.order", "INSTANCE-FLOOR statement entries of the AT connection calling an executor", "", "fewer than the two entries (Exec, Query) confirmed by hand")
+	}
+}
+
+// c02ReportFailed: the report step, asked to report a *failed* phase one (its boolean parameter false), returns nil
+// only when the branch was never registered (branch id 0) or the report to the coordinator succeeded — whatever
+// configuration switches the success report may depend on.
+func c02ReportFailed(r *core.Run) {
+	w := r.W
+	tx := w.NamedType("pkg/datasource/sql", "Tx")
+	f := methodInfo(w, tx, "report")
+	if r.Anchor("C02.fail", f, "sql.Tx.report") == nil {
+		return
+	}
+	var flag types.Object
+	for _, p := range paramObjs(f) {
+		if b, ok := p.Type().Underlying().(*types.Basic); ok && b.Kind() == types.Bool {
+			flag = p
+		}
+	}
+	if flag == nil {
+		r.Undecided("C02.fail", core.ShortKey(f.Obj)+" success flag", w.Pos(f.Decl.Pos()), "no boolean parameter")
+		return
+	}
+	// the retry loop is entered at least once: the backoff is created here with a context that is never done and
+	// a positive constant retry budget, so its first Ongoing() answers true (premise checked below)
+	premise := false
+	ast.Inspect(f.Decl.Body, func(n ast.Node) bool {
+		c, ok := n.(*ast.CallExpr)
+		if !ok || !core.IsPkgFunc(core.Callee(f.Pkg.TypesInfo, c), pBackoff, "New") || len(c.Args) != 2 {
+			return true
+		}
+		bg := strings.Contains(origin(f, c.Args[0], 3), "context.Background(")
+		pos := false
+		if cl := findCompositeLit(f, c.Args[1]); cl != nil {
+			if v := core.ConstVal(f.Pkg.TypesInfo, litField(cl, "MaxRetries")); v != nil && v.Kind() == constant.Int && constant.Sign(v) > 0 {
+				pos = true
+			}
+		}
+		premise = bg && pos
+		return true
+	})
+	r.Sites++
+	r.Check(premise, "C02.retry", core.ShortKey(f.Obj)+" : the report is attempted at least once", w.Pos(f.Decl.Pos()), "backoff over context.Background() with a positive constant MaxRetries", "the retry budget of the report is not a positive constant over a never-done context: the loop may not run at all and nil would be returned without any report")
+	sp := &flow.Spec{W: w, Depth: 0, Split: []flow.Tag{"unregistered", "fresh"},
+		Contradict: [][2]flow.Tag{{"fresh", "false:ongoing"}},
+		Classify: func(pkg *packages.Package, call *ast.CallExpr, callee *types.Func) []flow.Tag {
+			switch {
+			case isBranchReport(w, callee):
+				return []flow.Tag{"report", "-fresh"}
+			case core.IsPkgFunc(callee, pBackoff, "New"):
+				return []flow.Tag{"fresh"}
+			case core.IsMethod(callee, pBackoff, "Backoff", "Ongoing"):
+				return []flow.Tag{"ongoing"}
+			}
+			return nil
+		},
+		CondTags: func(pkg *packages.Package, cond ast.Expr, branch bool) []flow.Tag {
+			be, ok := ast.Unparen(cond).(*ast.BinaryExpr)
+			if !ok || (be.Op != token.EQL && be.Op != token.NEQ) {
+				return nil
+			}
+			if sel, ok := ast.Unparen(be.X).(*ast.SelectorExpr); ok && sel.Sel.Name == "BranchID" {
+				if v := core.ConstVal(pkg.TypesInfo, be.Y); v != nil && v.ExactString() == "0" && (be.Op == token.EQL) == branch {
+					return []flow.Tag{"unregistered"}
+				}
+			}
+			return nil
+		}}
+	res := sp.AnalyzeSeed(f, func(st *flow.State) { st.SetBool(flag, false) })
+	n := 0
+	for _, ex := range res.Exits {
+		if ex.Class == flow.ExitErr {
+			continue
+		}
+		n++
+		r.Sites++
+		via := ex.ErrOrigin != nil && inSet("report", ex.ErrOrigin.Tags...)
+		r.Check(ex.St.Has("unregistered") || ex.St.Has("ok:report") || via, "C02.fail", core.ShortKey(f.Obj)+"(false) "+exitRole(ex, func(t string) bool { return strings.HasSuffix(t, "report") || t == "unregistered" })+" : a failed phase one of a registered branch is reported", w.Pos(ex.Pos),
+			"nil only for an unregistered branch or after the report succeeded", "asked to report a failed phase one, the step can return nil without having told the coordinator (and without the branch being unregistered): the coordinator keeps the branch's global locks and believes phase one may still succeed")
+	}
+	if n == 0 {
+		r.Undecided("C02.fail", core.ShortKey(f.Obj)+"(false) exits", w.Pos(f.Decl.Pos()), "no non-error exit found")
 	}
 }
